@@ -1,4 +1,311 @@
-import Rngs.Model.Xoshiro
+/-
+  C07 — for every xoshiro/xoroshiro engine and for XorShiftRng the state transition is a
+  bijection fixing the all-zero state, and the non-zero states form a single cycle of length
+  2^n - 1 (n = 64, 128, 256, 512 state bits).
+
+  Proof route (Rngs/Lib/OrbitCert.lean, Rngs/Lib/FullPeriod.lean, Rngs/Cert/Lin*.lean,
+  Rngs/Cert/Primes.lean): the characteristic polynomial `P` of the engine annihilates it
+  (kernel check on the n one-bit states of the real model engine + additivity); `P` is odd, so the
+  engine is invertible; `x^(2^n-1) = 1 mod P`; for each prime `p | 2^n-1` (Pratt-certified, and
+  their product is `2^n-1`) `x^((2^n-1)/p) - 1` is a unit mod `P`, so no non-zero state has a
+  period dividing `(2^n-1)/p`; elementary number theory gives minimal period `2^n-1`; counting
+  gives the single cycle.
+
+  Per engine `T` (7 of them):
+    T_bijective, T_zero, T_period (period 2^n-1 and minimality), T_single_cycle,
+    T_never_zero (a non-zero state never reaches zero), T_no_repeat (no repetition before
+    2^n-1 steps).
+  Then one `_step` theorem per generator type (15) identifying its state transition with
+  its engine.
+-/
+import Rngs.Cert.LinXoroshiro64Main
+import Rngs.Cert.LinXoroshiro128Main
+import Rngs.Cert.LinXoroshiro128ppMain
+import Rngs.Cert.LinXoshiro128Main
+import Rngs.Cert.LinXorShift128Main
+import Rngs.Cert.LinXoshiro256Main
+import Rngs.Cert.LinXoshiro512Main
 namespace Rngs.C07
-theorem placeholder : True := trivial
+open Rngs
+
+-- only silences the elaborator's "exponent exceeds threshold" warning on `2 ^ 512`
+set_option exponentiation.threshold 1024
+
+/-! ### `xoroshiroU32` on `S2 32` (64 state bits) -/
+
+theorem xoroshiroU32_bijective : Function.Bijective xoroshiroU32 :=
+  Cert.Lin.Xoroshiro64.fullPeriod.bijective
+
+theorem xoroshiroU32_zero : xoroshiroU32 S2.zero = S2.zero :=
+  Cert.Lin.Xoroshiro64.fullPeriod.map_zero
+
+/-- every non-zero state has minimal period exactly `2^64 - 1` -/
+theorem xoroshiroU32_period (s : S2 32) (hs : s ≠ S2.zero) :
+    iter xoroshiroU32 (2 ^ 64 - 1) s = s ∧
+      ∀ k, 0 < k → k < 2 ^ 64 - 1 → iter xoroshiroU32 k s ≠ s :=
+  ⟨Cert.Lin.Xoroshiro64.fullPeriod.period s, Cert.Lin.Xoroshiro64.fullPeriod.minimal s hs⟩
+
+/-- the non-zero states form a single cycle -/
+theorem xoroshiroU32_single_cycle (s t : S2 32) (hs : s ≠ S2.zero) (ht : t ≠ S2.zero) :
+    ∃ k, k < 2 ^ 64 - 1 ∧ iter xoroshiroU32 k s = t :=
+  Cert.Lin.Xoroshiro64.fullPeriod.single_cycle s t hs ht
+
+/-- a generator started in a non-zero state never reaches the all-zero state -/
+theorem xoroshiroU32_never_zero (s : S2 32) (hs : s ≠ S2.zero) (k : Nat) :
+    iter xoroshiroU32 k s ≠ S2.zero :=
+  Cert.Lin.Xoroshiro64.fullPeriod.iter_ne_zero hs k
+
+/-- the state sequence does not repeat before `2^64 - 1` steps -/
+theorem xoroshiroU32_no_repeat (s : S2 32) (hs : s ≠ S2.zero) (i j : Nat) (hij : i < j)
+    (hj : j < 2 ^ 64 - 1) : iter xoroshiroU32 i s ≠ iter xoroshiroU32 j s :=
+  Cert.Lin.Xoroshiro64.fullPeriod.no_repeat hs hij hj
+
+/- the hypotheses are satisfiable: a non-zero state, and indices in range -/
+example : ∃ s t : S2 32, s ≠ S2.zero ∧ t ≠ S2.zero := ⟨⟨1, 0⟩, ⟨1, 0⟩, by decide, by decide⟩
+example : ∃ i j : Nat, 0 < j ∧ i < j ∧ j < 2 ^ 64 - 1 :=
+  ⟨0, 1, Nat.one_pos, Nat.one_pos, Nat.lt_sub_of_add_lt
+    (Nat.lt_of_lt_of_le (by decide : 1 + 1 < 2 ^ 2) (Nat.pow_le_pow_right (by decide) (by decide : 2 ≤ 64)))⟩
+
+/-! ### `xoroshiroU64` on `S2 64` (128 state bits) -/
+
+theorem xoroshiroU64_bijective : Function.Bijective xoroshiroU64 :=
+  Cert.Lin.Xoroshiro128.fullPeriod.bijective
+
+theorem xoroshiroU64_zero : xoroshiroU64 S2.zero = S2.zero :=
+  Cert.Lin.Xoroshiro128.fullPeriod.map_zero
+
+/-- every non-zero state has minimal period exactly `2^128 - 1` -/
+theorem xoroshiroU64_period (s : S2 64) (hs : s ≠ S2.zero) :
+    iter xoroshiroU64 (2 ^ 128 - 1) s = s ∧
+      ∀ k, 0 < k → k < 2 ^ 128 - 1 → iter xoroshiroU64 k s ≠ s :=
+  ⟨Cert.Lin.Xoroshiro128.fullPeriod.period s, Cert.Lin.Xoroshiro128.fullPeriod.minimal s hs⟩
+
+/-- the non-zero states form a single cycle -/
+theorem xoroshiroU64_single_cycle (s t : S2 64) (hs : s ≠ S2.zero) (ht : t ≠ S2.zero) :
+    ∃ k, k < 2 ^ 128 - 1 ∧ iter xoroshiroU64 k s = t :=
+  Cert.Lin.Xoroshiro128.fullPeriod.single_cycle s t hs ht
+
+/-- a generator started in a non-zero state never reaches the all-zero state -/
+theorem xoroshiroU64_never_zero (s : S2 64) (hs : s ≠ S2.zero) (k : Nat) :
+    iter xoroshiroU64 k s ≠ S2.zero :=
+  Cert.Lin.Xoroshiro128.fullPeriod.iter_ne_zero hs k
+
+/-- the state sequence does not repeat before `2^128 - 1` steps -/
+theorem xoroshiroU64_no_repeat (s : S2 64) (hs : s ≠ S2.zero) (i j : Nat) (hij : i < j)
+    (hj : j < 2 ^ 128 - 1) : iter xoroshiroU64 i s ≠ iter xoroshiroU64 j s :=
+  Cert.Lin.Xoroshiro128.fullPeriod.no_repeat hs hij hj
+
+/- the hypotheses are satisfiable: a non-zero state, and indices in range -/
+example : ∃ s t : S2 64, s ≠ S2.zero ∧ t ≠ S2.zero := ⟨⟨1, 0⟩, ⟨1, 0⟩, by decide, by decide⟩
+example : ∃ i j : Nat, 0 < j ∧ i < j ∧ j < 2 ^ 128 - 1 :=
+  ⟨0, 1, Nat.one_pos, Nat.one_pos, Nat.lt_sub_of_add_lt
+    (Nat.lt_of_lt_of_le (by decide : 1 + 1 < 2 ^ 2) (Nat.pow_le_pow_right (by decide) (by decide : 2 ≤ 128)))⟩
+
+/-! ### `xoroshiroU64pp` on `S2 64` (128 state bits) -/
+
+theorem xoroshiroU64pp_bijective : Function.Bijective xoroshiroU64pp :=
+  Cert.Lin.Xoroshiro128pp.fullPeriod.bijective
+
+theorem xoroshiroU64pp_zero : xoroshiroU64pp S2.zero = S2.zero :=
+  Cert.Lin.Xoroshiro128pp.fullPeriod.map_zero
+
+/-- every non-zero state has minimal period exactly `2^128 - 1` -/
+theorem xoroshiroU64pp_period (s : S2 64) (hs : s ≠ S2.zero) :
+    iter xoroshiroU64pp (2 ^ 128 - 1) s = s ∧
+      ∀ k, 0 < k → k < 2 ^ 128 - 1 → iter xoroshiroU64pp k s ≠ s :=
+  ⟨Cert.Lin.Xoroshiro128pp.fullPeriod.period s, Cert.Lin.Xoroshiro128pp.fullPeriod.minimal s hs⟩
+
+/-- the non-zero states form a single cycle -/
+theorem xoroshiroU64pp_single_cycle (s t : S2 64) (hs : s ≠ S2.zero) (ht : t ≠ S2.zero) :
+    ∃ k, k < 2 ^ 128 - 1 ∧ iter xoroshiroU64pp k s = t :=
+  Cert.Lin.Xoroshiro128pp.fullPeriod.single_cycle s t hs ht
+
+/-- a generator started in a non-zero state never reaches the all-zero state -/
+theorem xoroshiroU64pp_never_zero (s : S2 64) (hs : s ≠ S2.zero) (k : Nat) :
+    iter xoroshiroU64pp k s ≠ S2.zero :=
+  Cert.Lin.Xoroshiro128pp.fullPeriod.iter_ne_zero hs k
+
+/-- the state sequence does not repeat before `2^128 - 1` steps -/
+theorem xoroshiroU64pp_no_repeat (s : S2 64) (hs : s ≠ S2.zero) (i j : Nat) (hij : i < j)
+    (hj : j < 2 ^ 128 - 1) : iter xoroshiroU64pp i s ≠ iter xoroshiroU64pp j s :=
+  Cert.Lin.Xoroshiro128pp.fullPeriod.no_repeat hs hij hj
+
+/- the hypotheses are satisfiable: a non-zero state, and indices in range -/
+example : ∃ s t : S2 64, s ≠ S2.zero ∧ t ≠ S2.zero := ⟨⟨1, 0⟩, ⟨1, 0⟩, by decide, by decide⟩
+example : ∃ i j : Nat, 0 < j ∧ i < j ∧ j < 2 ^ 128 - 1 :=
+  ⟨0, 1, Nat.one_pos, Nat.one_pos, Nat.lt_sub_of_add_lt
+    (Nat.lt_of_lt_of_le (by decide : 1 + 1 < 2 ^ 2) (Nat.pow_le_pow_right (by decide) (by decide : 2 ≤ 128)))⟩
+
+/-! ### `xoshiroU32` on `S4 32` (128 state bits) -/
+
+theorem xoshiroU32_bijective : Function.Bijective xoshiroU32 :=
+  Cert.Lin.Xoshiro128.fullPeriod.bijective
+
+theorem xoshiroU32_zero : xoshiroU32 S4.zero = S4.zero :=
+  Cert.Lin.Xoshiro128.fullPeriod.map_zero
+
+/-- every non-zero state has minimal period exactly `2^128 - 1` -/
+theorem xoshiroU32_period (s : S4 32) (hs : s ≠ S4.zero) :
+    iter xoshiroU32 (2 ^ 128 - 1) s = s ∧
+      ∀ k, 0 < k → k < 2 ^ 128 - 1 → iter xoshiroU32 k s ≠ s :=
+  ⟨Cert.Lin.Xoshiro128.fullPeriod.period s, Cert.Lin.Xoshiro128.fullPeriod.minimal s hs⟩
+
+/-- the non-zero states form a single cycle -/
+theorem xoshiroU32_single_cycle (s t : S4 32) (hs : s ≠ S4.zero) (ht : t ≠ S4.zero) :
+    ∃ k, k < 2 ^ 128 - 1 ∧ iter xoshiroU32 k s = t :=
+  Cert.Lin.Xoshiro128.fullPeriod.single_cycle s t hs ht
+
+/-- a generator started in a non-zero state never reaches the all-zero state -/
+theorem xoshiroU32_never_zero (s : S4 32) (hs : s ≠ S4.zero) (k : Nat) :
+    iter xoshiroU32 k s ≠ S4.zero :=
+  Cert.Lin.Xoshiro128.fullPeriod.iter_ne_zero hs k
+
+/-- the state sequence does not repeat before `2^128 - 1` steps -/
+theorem xoshiroU32_no_repeat (s : S4 32) (hs : s ≠ S4.zero) (i j : Nat) (hij : i < j)
+    (hj : j < 2 ^ 128 - 1) : iter xoshiroU32 i s ≠ iter xoshiroU32 j s :=
+  Cert.Lin.Xoshiro128.fullPeriod.no_repeat hs hij hj
+
+/- the hypotheses are satisfiable: a non-zero state, and indices in range -/
+example : ∃ s t : S4 32, s ≠ S4.zero ∧ t ≠ S4.zero := ⟨⟨1, 0, 0, 0⟩, ⟨1, 0, 0, 0⟩, by decide, by decide⟩
+example : ∃ i j : Nat, 0 < j ∧ i < j ∧ j < 2 ^ 128 - 1 :=
+  ⟨0, 1, Nat.one_pos, Nat.one_pos, Nat.lt_sub_of_add_lt
+    (Nat.lt_of_lt_of_le (by decide : 1 + 1 < 2 ^ 2) (Nat.pow_le_pow_right (by decide) (by decide : 2 ≤ 128)))⟩
+
+/-! ### `xoshiroU64` on `S4 64` (256 state bits) -/
+
+theorem xoshiroU64_bijective : Function.Bijective xoshiroU64 :=
+  Cert.Lin.Xoshiro256.fullPeriod.bijective
+
+theorem xoshiroU64_zero : xoshiroU64 S4.zero = S4.zero :=
+  Cert.Lin.Xoshiro256.fullPeriod.map_zero
+
+/-- every non-zero state has minimal period exactly `2^256 - 1` -/
+theorem xoshiroU64_period (s : S4 64) (hs : s ≠ S4.zero) :
+    iter xoshiroU64 (2 ^ 256 - 1) s = s ∧
+      ∀ k, 0 < k → k < 2 ^ 256 - 1 → iter xoshiroU64 k s ≠ s :=
+  ⟨Cert.Lin.Xoshiro256.fullPeriod.period s, Cert.Lin.Xoshiro256.fullPeriod.minimal s hs⟩
+
+/-- the non-zero states form a single cycle -/
+theorem xoshiroU64_single_cycle (s t : S4 64) (hs : s ≠ S4.zero) (ht : t ≠ S4.zero) :
+    ∃ k, k < 2 ^ 256 - 1 ∧ iter xoshiroU64 k s = t :=
+  Cert.Lin.Xoshiro256.fullPeriod.single_cycle s t hs ht
+
+/-- a generator started in a non-zero state never reaches the all-zero state -/
+theorem xoshiroU64_never_zero (s : S4 64) (hs : s ≠ S4.zero) (k : Nat) :
+    iter xoshiroU64 k s ≠ S4.zero :=
+  Cert.Lin.Xoshiro256.fullPeriod.iter_ne_zero hs k
+
+/-- the state sequence does not repeat before `2^256 - 1` steps -/
+theorem xoshiroU64_no_repeat (s : S4 64) (hs : s ≠ S4.zero) (i j : Nat) (hij : i < j)
+    (hj : j < 2 ^ 256 - 1) : iter xoshiroU64 i s ≠ iter xoshiroU64 j s :=
+  Cert.Lin.Xoshiro256.fullPeriod.no_repeat hs hij hj
+
+/- the hypotheses are satisfiable: a non-zero state, and indices in range -/
+example : ∃ s t : S4 64, s ≠ S4.zero ∧ t ≠ S4.zero := ⟨⟨1, 0, 0, 0⟩, ⟨1, 0, 0, 0⟩, by decide, by decide⟩
+example : ∃ i j : Nat, 0 < j ∧ i < j ∧ j < 2 ^ 256 - 1 :=
+  ⟨0, 1, Nat.one_pos, Nat.one_pos, Nat.lt_sub_of_add_lt
+    (Nat.lt_of_lt_of_le (by decide : 1 + 1 < 2 ^ 2) (Nat.pow_le_pow_right (by decide) (by decide : 2 ≤ 256)))⟩
+
+/-! ### `xoshiroLarge` on `S8` (512 state bits) -/
+
+theorem xoshiroLarge_bijective : Function.Bijective xoshiroLarge :=
+  Cert.Lin.Xoshiro512.fullPeriod.bijective
+
+theorem xoshiroLarge_zero : xoshiroLarge S8.zero = S8.zero :=
+  Cert.Lin.Xoshiro512.fullPeriod.map_zero
+
+/-- every non-zero state has minimal period exactly `2^512 - 1` -/
+theorem xoshiroLarge_period (s : S8) (hs : s ≠ S8.zero) :
+    iter xoshiroLarge (2 ^ 512 - 1) s = s ∧
+      ∀ k, 0 < k → k < 2 ^ 512 - 1 → iter xoshiroLarge k s ≠ s :=
+  ⟨Cert.Lin.Xoshiro512.fullPeriod.period s, Cert.Lin.Xoshiro512.fullPeriod.minimal s hs⟩
+
+/-- the non-zero states form a single cycle -/
+theorem xoshiroLarge_single_cycle (s t : S8) (hs : s ≠ S8.zero) (ht : t ≠ S8.zero) :
+    ∃ k, k < 2 ^ 512 - 1 ∧ iter xoshiroLarge k s = t :=
+  Cert.Lin.Xoshiro512.fullPeriod.single_cycle s t hs ht
+
+/-- a generator started in a non-zero state never reaches the all-zero state -/
+theorem xoshiroLarge_never_zero (s : S8) (hs : s ≠ S8.zero) (k : Nat) :
+    iter xoshiroLarge k s ≠ S8.zero :=
+  Cert.Lin.Xoshiro512.fullPeriod.iter_ne_zero hs k
+
+/-- the state sequence does not repeat before `2^512 - 1` steps -/
+theorem xoshiroLarge_no_repeat (s : S8) (hs : s ≠ S8.zero) (i j : Nat) (hij : i < j)
+    (hj : j < 2 ^ 512 - 1) : iter xoshiroLarge i s ≠ iter xoshiroLarge j s :=
+  Cert.Lin.Xoshiro512.fullPeriod.no_repeat hs hij hj
+
+/- the hypotheses are satisfiable: a non-zero state, and indices in range -/
+example : ∃ s t : S8, s ≠ S8.zero ∧ t ≠ S8.zero := ⟨⟨1, 0, 0, 0, 0, 0, 0, 0⟩, ⟨1, 0, 0, 0, 0, 0, 0, 0⟩, by decide, by decide⟩
+example : ∃ i j : Nat, 0 < j ∧ i < j ∧ j < 2 ^ 512 - 1 :=
+  ⟨0, 1, Nat.one_pos, Nat.one_pos, Nat.lt_sub_of_add_lt
+    (Nat.lt_of_lt_of_le (by decide : 1 + 1 < 2 ^ 2) (Nat.pow_le_pow_right (by decide) (by decide : 2 ≤ 512)))⟩
+
+/-! ### `XorShift.step` on `S4 32` (128 state bits) -/
+
+theorem xorShift_bijective : Function.Bijective XorShift.step :=
+  Cert.Lin.XorShift128.fullPeriod.bijective
+
+theorem xorShift_zero : XorShift.step S4.zero = S4.zero :=
+  Cert.Lin.XorShift128.fullPeriod.map_zero
+
+/-- every non-zero state has minimal period exactly `2^128 - 1` -/
+theorem xorShift_period (s : S4 32) (hs : s ≠ S4.zero) :
+    iter XorShift.step (2 ^ 128 - 1) s = s ∧
+      ∀ k, 0 < k → k < 2 ^ 128 - 1 → iter XorShift.step k s ≠ s :=
+  ⟨Cert.Lin.XorShift128.fullPeriod.period s, Cert.Lin.XorShift128.fullPeriod.minimal s hs⟩
+
+/-- the non-zero states form a single cycle -/
+theorem xorShift_single_cycle (s t : S4 32) (hs : s ≠ S4.zero) (ht : t ≠ S4.zero) :
+    ∃ k, k < 2 ^ 128 - 1 ∧ iter XorShift.step k s = t :=
+  Cert.Lin.XorShift128.fullPeriod.single_cycle s t hs ht
+
+/-- a generator started in a non-zero state never reaches the all-zero state -/
+theorem xorShift_never_zero (s : S4 32) (hs : s ≠ S4.zero) (k : Nat) :
+    iter XorShift.step k s ≠ S4.zero :=
+  Cert.Lin.XorShift128.fullPeriod.iter_ne_zero hs k
+
+/-- the state sequence does not repeat before `2^128 - 1` steps -/
+theorem xorShift_no_repeat (s : S4 32) (hs : s ≠ S4.zero) (i j : Nat) (hij : i < j)
+    (hj : j < 2 ^ 128 - 1) : iter XorShift.step i s ≠ iter XorShift.step j s :=
+  Cert.Lin.XorShift128.fullPeriod.no_repeat hs hij hj
+
+/- the hypotheses are satisfiable: a non-zero state, and indices in range -/
+example : ∃ s t : S4 32, s ≠ S4.zero ∧ t ≠ S4.zero := ⟨⟨1, 0, 0, 0⟩, ⟨1, 0, 0, 0⟩, by decide, by decide⟩
+example : ∃ i j : Nat, 0 < j ∧ i < j ∧ j < 2 ^ 128 - 1 :=
+  ⟨0, 1, Nat.one_pos, Nat.one_pos, Nat.lt_sub_of_add_lt
+    (Nat.lt_of_lt_of_le (by decide : 1 + 1 < 2 ^ 2) (Nat.pow_le_pow_right (by decide) (by decide : 2 ≤ 128)))⟩
+
+/-! ### the 15 generator types: their state transition is one of the engines above -/
+
+theorem Xoroshiro64Star_step (s : S2 32) : (Xoroshiro64Star.nextU32 s).2 = xoroshiroU32 s := rfl
+
+theorem Xoroshiro64StarStar_step (s : S2 32) : (Xoroshiro64StarStar.nextU32 s).2 = xoroshiroU32 s := rfl
+
+theorem Xoroshiro128Plus_step : Xoroshiro128Plus.step = xoroshiroU64 := rfl
+
+theorem Xoroshiro128PlusPlus_step : Xoroshiro128PlusPlus.step = xoroshiroU64pp := rfl
+
+theorem Xoroshiro128StarStar_step : Xoroshiro128StarStar.step = xoroshiroU64 := rfl
+
+theorem Xoshiro128Plus_step : Xoshiro128Plus.step = xoshiroU32 := rfl
+
+theorem Xoshiro128PlusPlus_step : Xoshiro128PlusPlus.step = xoshiroU32 := rfl
+
+theorem Xoshiro128StarStar_step : Xoshiro128StarStar.step = xoshiroU32 := rfl
+
+theorem Xoshiro256Plus_step : Xoshiro256Plus.step = xoshiroU64 := rfl
+
+theorem Xoshiro256PlusPlus_step : Xoshiro256PlusPlus.step = xoshiroU64 := rfl
+
+theorem Xoshiro256StarStar_step : Xoshiro256StarStar.step = xoshiroU64 := rfl
+
+theorem Xoshiro512Plus_step : Xoshiro512Plus.step = xoshiroLarge := rfl
+
+theorem Xoshiro512PlusPlus_step : Xoshiro512PlusPlus.step = xoshiroLarge := rfl
+
+theorem Xoshiro512StarStar_step : Xoshiro512StarStar.step = xoshiroLarge := rfl
+
+theorem XorShiftRng_step (s : XorShift.State) : (XorShift.nextU32 s).2 = XorShift.step s := rfl
+
 end Rngs.C07
